@@ -52,7 +52,7 @@ for g in raw["census"]:
     keep = []
     for e in g["entries"]:
         why = None
-        if e["op"] == "!=" and e["value"] == "1262571098":
+        if e["op"] in ("!=", "==") and e["value"] == "1262571098":
             pass  # magic number test
         elif e["op"] not in KEEP_OPS:
             why = "comparison / additive arithmetic / event or error argument: not a wire constant"
